@@ -64,7 +64,7 @@ CHECKS = {
         design="DESIGN.md section 5/C05",
     ),
     "C01": dict(
-        text="Theorems for bundles of any length and every separator: text iteration recovers exactly the written lines plus one terminator line per table, and splitting recovers exactly the joined cells; one written value read back under its unit; one table of either orientation read back; and the whole statement in the reader model: read(cells(lines(write_csv sep ts))) delivers exactly one TABLE event per written table, in order, equal to it (tables with at least one row and column; zero-row tables by correspondence and oracle only). The same composition read_csv(write_csv ts) is evaluated with vm_compute on every generated bundle, the writer model is compared byte for byte with write_csv, and the oracle checks the real round trip (count, order, name, destinations, flag, columns, units, values, inputs unmodified) for explicit/default separators and path/stream.",
+        text="Theorems for bundles of any length and every separator: text iteration recovers exactly the written lines plus one terminator line per table, and splitting recovers exactly the joined cells; one written value read back under its unit; one table of either orientation read back; and the whole statement in the reader model: read(cells(lines(write_csv sep ts))) delivers exactly one TABLE event per written table, in order, equal to it - for tables with rows and columns, with columns only, or with neither; the destinations read back are the destinations written; the block-shape hypotheses follow from conditions on first cells. The same composition read_csv(write_csv ts) is evaluated with vm_compute on every generated bundle, the writer model is compared byte for byte with write_csv, and the oracle checks the real round trip (count, order, name, destinations, flag, columns, units, values, inputs unmodified) for explicit/default separators and path/stream.",
         note="Coq kernel + vm_compute; models WriteCsv.v + reader models; H_float_roundtrip, H_dt_roundtrip, H_native sampled per case; no display formats.",
         design="DESIGN.md section 5/C01",
     ),
